@@ -924,7 +924,8 @@ D_INPUT = ["absent", "dir", "file"]
 # reuse-sibling: the reused results lie in a directory whose path merely starts with the output directory's path
 # reuse-nested: the reused results lie in a sub-directory of the output directory (that sub-directory is then 'the
 # results being reused'; anything else in the output directory is still foreign)
-D_MODES = ["fresh", "reuse-inside", "reuse-elsewhere", "reuse-sibling", "reuse-nested"]
+# fresh-inside: a fresh run whose sequence file lies in the output directory itself (the file is then a foreign entry)
+D_MODES = ["fresh", "reuse-inside", "reuse-elsewhere", "reuse-sibling", "reuse-nested", "fresh-inside"]
 ELSEWHERE_MODES = ("reuse-elsewhere", "reuse-sibling", "reuse-nested")
 # nested: the log file lies in a sub-directory of the output directory that also holds other files (element logsdir)
 D_LOGCFG = ["unset", "inside", "outside", "nested"]
@@ -1035,6 +1036,7 @@ def run_dir_case(ctx, sandbox, case, main_module, config_module):
     stem = "prev" if mode in ELSEWHERE_MODES else "in"
     outdir = os.path.join(neutral, stem) if case["name"] == "derived" else os.path.join(sandbox, "out")
     input_file = {"fresh": os.path.join(sandbox, "src", "in.gbk"),
+                  "fresh-inside": os.path.join(outdir, "genome.gbk"),
                   "reuse-inside": os.path.join(outdir, "in.json"),
                   "reuse-elsewhere": os.path.join(sandbox, "elsewhere", "prev.json"),
                   "reuse-sibling": outdir + "_old" + os.sep + "prev.json",
@@ -1065,6 +1067,8 @@ def _run_dir_case(ctx, sandbox, case, main_module, config_module, neutral, outdi
                 _put(os.path.join(outdir, rel), content, parents=False)
         if mode == "reuse-nested":
             os.rename(os.path.join(sandbox, "pool", "previous"), os.path.join(outdir, "previous"))
+        if mode == "fresh-inside":
+            _put(input_file, b"LOCUS       genome\n//\n", parents=False)
         if case["input"] == "dir":
             os.rename(os.path.join(sandbox, "pool", "input"), os.path.join(outdir, "input"))
         elif case["input"] == "file":
@@ -1148,7 +1152,7 @@ def _run_dir_case(ctx, sandbox, case, main_module, config_module, neutral, outdi
 
     if mode == "reuse-inside":
         must_refuse = False
-    elif mode == "fresh":
+    elif mode in ("fresh", "fresh-inside"):
         considered = foreign if STRICT_HIDDEN_ENTRIES else [e for e in foreign if e not in hidden]
         must_refuse = bool(considered)
     else:
@@ -1175,9 +1179,9 @@ def _run_dir_case(ctx, sandbox, case, main_module, config_module, neutral, outdi
     bad_events = [e for e in trace if not (e[0] == "os.remove" and e[1][len(sandbox) + 1:] in removable)]
     if bad_events:
         ctx.violate("accepted-run-touched-other-paths", dict(facts, fs_events=bad_events), case)
-    if removed and mode != "fresh":
+    if removed and mode not in ("fresh", "fresh-inside"):
         ctx.count("D:region-gbk-removed-on-reuse")
-    if removed and mode == "fresh" and not must_refuse:
+    if removed and mode in ("fresh", "fresh-inside") and not must_refuse:
         ctx.violate("fresh-run-removed-files", facts, case)
 
 
@@ -1203,16 +1207,18 @@ def dir_cases(elements_universe, full):
                         if not full and logcfg == "outside" and "log" not in subset:
                             continue
                         if not full and mode == "reuse-sibling" and (len(subset) > 2 or logcfg != "unset"):
+                            continue
+                        if not full and mode == "fresh-inside" and (len(subset) > 2 or logcfg not in ("unset", "inside")):
                             continue    # quick tier: the sibling-path variant of reuse only next to <= 2 elements
                         base = {"elements": list(subset), "input": inp, "mode": mode, "logcfg": logcfg,
                                 "cwd": "neutral", "name": "explicit", "path_state": "exists"}
                         cases.append(base)
                         if "dir" in subset and (full or logcfg == "unset"):
                             cases.append(dict(base, cwd="in-stray"))
-                        if full or set(subset) <= set(D_DESIGN_ELEMENTS[:4]):
-                            cases.append(dict(base, name="derived"))
+                        if (full or set(subset) <= set(D_DESIGN_ELEMENTS[:4])) and mode != "fresh-inside":
+                            cases.append(dict(base, name="derived"))      # (a derived name follows the input file)
     for state in ("missing", "file"):
-        for mode in D_MODES:
+        for mode in D_MODES[:-1]:       # (a file inside the directory needs the directory)
             for logcfg in D_LOGCFG:
                 for name in ("explicit", "derived"):
                     cases.append({"elements": [], "input": "absent", "mode": mode, "logcfg": logcfg, "cwd": "neutral",
